@@ -81,6 +81,16 @@ fn try_null_datalink(packet: &[u8]) -> Option<(IpAddr, IpAddr, u16, u16)> {
         return None;
     }
 
+    // Same signature packet_parser::try_null_datalink_format accepts: `1e 00 xx xx`, IP version
+    // taken from the first nibble of the IP header.
+    if packet[0] == 0x1e && packet[1] == 0x00 && packet.len() > 4 {
+        return match packet[4] >> 4 {
+            4 => extract_ipv4_info(&packet[4..]),
+            6 => extract_ipv6_info(&packet[4..]),
+            _ => None,
+        };
+    }
+
     // NULL datalink has 4-byte header with address family
     // AF_INET = 2, AF_INET6 = 30 (on most systems)
     let family = u32::from_ne_bytes([packet[0], packet[1], packet[2], packet[3]]);
